@@ -181,7 +181,13 @@ fn report_non_existing_path_parameters(
     // an error on each of them.
     let consuming_ids = path_params_consumer_ids(call_graph, ok_path_params_node_id);
     for component_id in consuming_ids {
-        let Some(user_id) = component_db.user_component_id(component_id) else {
+        // A wrapping middleware is represented by a copy bound to its `Next` state,
+        // derived from the component registered by the user.
+        let Some(user_id) = component_db.user_component_id(component_id).or_else(|| {
+            component_db
+                .derived_from(&component_id)
+                .and_then(|id| component_db.user_component_id(id))
+        }) else {
             continue;
         };
         let callable = &computation_db[user_id];
@@ -304,7 +310,13 @@ fn must_be_a_plain_struct(
     let consuming_ids = path_params_consumer_ids(call_graph, ok_path_params_node_id);
 
     for component_id in consuming_ids {
-        let Some(user_id) = component_db.user_component_id(component_id) else {
+        // A wrapping middleware is represented by a copy bound to its `Next` state,
+        // derived from the component registered by the user.
+        let Some(user_id) = component_db.user_component_id(component_id).or_else(|| {
+            component_db
+                .derived_from(&component_id)
+                .and_then(|id| component_db.user_component_id(id))
+        }) else {
             continue;
         };
         let callable = &computation_db[user_id];
